@@ -5,6 +5,7 @@ import (
 	"errors";
 	"io";
 	"context";
+	"encoding/json";
 
 	pb "github.com/marekgalovic/anndb/protobuf";
 	"github.com/marekgalovic/anndb/cluster";
@@ -22,6 +23,39 @@ func NewNodesManager(clusterConn *cluster.Conn, zeroGroup *RaftGroup) *NodesMana
 		clusterConn: clusterConn,
 		zeroGroup: zeroGroup,
 	}
+}
+
+// Makes the address book part of the zero group's snapshots: membership changes carry the only
+// durable record of node addresses and are gone from the log once it is compacted
+func (this *NodesManager) RegisterSnapshots(group Group) error {
+	if err := group.RegisterProcessFn(func([]byte) error { return nil }); err != nil {
+		return err
+	}
+	if err := group.RegisterProcessSnapshotFn(this.processSnapshot); err != nil {
+		return err
+	}
+	return group.RegisterSnapshotFn(this.snapshot)
+}
+
+func (this *NodesManager) snapshot() ([]byte, error) {
+	return json.Marshal(this.clusterConn.Nodes())
+}
+
+func (this *NodesManager) processSnapshot(data []byte) error {
+	nodes := make(map[uint64]string)
+	if err := json.Unmarshal(data, &nodes); err != nil {
+		return err
+	}
+
+	for id, _ := range this.clusterConn.Nodes() {
+		if _, exists := nodes[id]; !exists && id != this.clusterConn.Id() {
+			this.clusterConn.RemoveNode(id)
+		}
+	}
+	for id, address := range nodes {
+		this.clusterConn.AddNode(id, address)
+	}
+	return nil
 }
 
 func (this *NodesManager) Join(ctx context.Context, addresses []string) error {
